@@ -319,6 +319,11 @@ def main(argv):
     except Exception:
         res = {"status": "error", "detail": "worker crashed:\n" + traceback.format_exc()[-2500:]}
     res["wall_s"] = round(time.time() - t0, 2)
+    try:
+        import allmydata
+        res["repo_src"] = os.path.dirname(os.path.dirname(os.path.abspath(allmydata.__file__)))
+    except Exception:
+        res["repo_src"] = None
     res["case"] = case
     res["obligation"] = obname
     res["bounds"] = bounds
